@@ -19,7 +19,10 @@ one() {
   fi
   out=$(VERIF_SCRATCH=/root/scratch/regress /verif/tools/run_on.sh "$WT" "$P" 2>&1)
   v=$(echo "$out" | grep -m1 VIOLATION)
-  if [ -n "$v" ]; then echo "$s CAUGHT $v"; else echo "$s MISSED $(echo "$out" | tail -1 | cut -c1-200)"; fi
+  N=$(python3 -c "import json; print(json.load(open('/verif/seeded/$s/meta.json')).get('neutralised_by',''))" 2>/dev/null)
+  if [ -n "$v" ] && [ -n "$N" ]; then echo "$s ALARM-ON-NEUTRALISED $v";
+  elif [ -n "$N" ]; then echo "$s NEUTRALISED (by /repo $N: the change no longer breaks the property; check quiet, as it must be)";
+  elif [ -n "$v" ]; then echo "$s CAUGHT $v"; else echo "$s MISSED $(echo "$out" | tail -1 | cut -c1-200)"; fi
   git -C /repo worktree remove --force "$WT" >/dev/null 2>&1; rm -rf "$WT"
 }
 export -f one
